@@ -286,6 +286,18 @@ func (ws *WatchingSource) watchLoop(
 		defer ticker.Stop()
 	}
 
+	// A change made before a watch became active produces no event, so every
+	// added watch (including the ones Watch set up after the initial Value
+	// call) is followed by one more read; unchanged content is suppressed.
+	recheck := make(chan struct{}, 1)
+	signalRecheck := func() {
+		select {
+		case recheck <- struct{}{}:
+		default:
+		}
+	}
+	signalRecheck()
+
 	watchingFile := true
 	eventNumber := 0
 	cleanedPathDir := filepath.Dir(cleanedPath)
@@ -293,6 +305,7 @@ func (ws *WatchingSource) watchLoop(
 MAINLOOP:
 	for {
 		select {
+		case <-recheck:
 		case <-tickerChan:
 		case <-ws.Reload:
 		case ev, ok := <-ws.watcher.Events:
@@ -353,9 +366,13 @@ MAINLOOP:
 					cleanedPath, addErr)
 			} else {
 				watchingFile = true
+				signalRecheck()
 			}
 		}
 		ws.updateDirWatches(oldResolvedCfgDir, filepath.Dir(resolvedCfgPath))
+		if oldResolvedCfgDir != filepath.Dir(resolvedCfgPath) {
+			signalRecheck()
+		}
 
 		switch t := parseErr.(type) {
 		case nil:
